@@ -62,10 +62,21 @@ func vfC24Values() []vfC24Value {
 		// statement does not say whether it is decoded; both readings accepted.
 		{kind: "percent", raw: `a%2Cb%3Bc%22d`, plain: []string{`a%2Cb%3Bc%22d`, `a,b;c"d`}, urlenc: one(`a,b;c"d`)},
 		{kind: "empty", raw: ``, plain: one(""), urlenc: one("")},
+		// A quoted value ENDING in an escaped backslash: the closing quote is a
+		// closing quote (quote parity must not invert for the rest of the
+		// header). Decoded value: quoted-pair reading `a\`; a reader that treats
+		// only \" as an escape (Envoy) keeps both backslashes -- both accepted,
+		// the STRUCTURE (elements / pairs that follow) is not negotiable.
+		{kind: "quoted-trailing-backslash", raw: `"a\\"`, plain: []string{`a\`, `a\\`}, urlenc: []string{`a\`, `a\\`}},
 		// thorough only:
 		{kind: "quoted-percent", raw: `"x%20y%2Cz"`, plain: []string{`x%20y%2Cz`, `x y,z`}, urlenc: one(`x y,z`)},
 		{kind: "quoted-all", raw: `"a\",;b"`, plain: one(`a",;b`), urlenc: one(`a",;b`)},
 		{kind: "quoted-empty", raw: `""`, plain: one(""), urlenc: one("")},
+		// escaped backslash followed by characters that only matter when the
+		// quote state is right: delimiters, and an escaped quote
+		{kind: "quoted-backslash-delims", raw: `"a\\,b;c"`, plain: []string{`a\,b;c`, `a\\,b;c`}, urlenc: []string{`a\,b;c`, `a\\,b;c`}},
+		{kind: "quoted-backslash-escaped-quote", raw: `"a\\\"b"`, plain: []string{`a\"b`, `a\\"b`}, urlenc: []string{`a\"b`, `a\\"b`}},
+		{kind: "quoted-only-backslash", raw: `"\\"`, plain: []string{`\`, `\\`}, urlenc: []string{`\`, `\\`}},
 	}
 }
 
@@ -265,6 +276,8 @@ func vfC24Subjects() []vfC24Subject {
 		// parser itself reported.
 		{name: `CN=a\,b,O=c literal`, raw: `"CN=a\,b,O=c"`, readings: []string{`CN=a\,b,O=c`, `CN=a,b,O=c`}},
 		{name: `CN=a\,b,O=c doubled`, raw: `"CN=a\\,b,O=c"`, readings: []string{`CN=a\\,b,O=c`, `CN=a\,b,O=c`}},
+		// CN ending in an escaped backslash (quoted value ends in \\ + closing quote)
+		{name: `CN=x\ trailing-backslash`, raw: `"CN=x\\"`, readings: []string{`CN=x\`, `CN=x\\`}},
 		{name: "O=b", raw: `O=b`, readings: one("O=b")},
 		{name: "empty", raw: ``, readings: one("")},
 		{name: "absent", raw: "\x00absent", readings: one("")},
@@ -380,9 +393,9 @@ func TestVerif_C24(t *testing.T) {
 	})
 
 	// ---------------- XFCC grammar ----------------
-	nKinds := venum.QT(6, 9)
+	nKinds := venum.QT(7, 13)
 	shapes := vfC24Shapes(venum.QT(3, 4))
-	// (4 pairs over 9 kinds is too wide; the 4-pair shapes use the 6 base kinds.)
+	// (4 pairs over 13 kinds is too wide; the 4-pair shapes use the first 7 kinds.)
 	venum.SetInfo("xfcc_shapes", fmt.Sprint(shapes))
 	venum.Explore(t, venum.Cfg{Name: "xfcc-grammar", Shardable: true}, func(x *venum.X) {
 		shape := shapes[x.Choose(len(shapes), "shape")]
@@ -392,7 +405,7 @@ func TestVerif_C24(t *testing.T) {
 		}
 		kinds := nKinds
 		if total >= 4 {
-			kinds = 6
+			kinds = 7
 		}
 		var elems []vfC24Elem
 		for i, n := range shape {
@@ -551,7 +564,7 @@ func TestVerif_C24(t *testing.T) {
 		noise = noise[:7]
 	}
 	noiseShapes := vfC24Shapes(2)
-	noiseKinds := venum.QT(6, 9)
+	noiseKinds := venum.QT(7, 13)
 	identFirst, _ := MtlsAuthenticateXfcc(MtlsAuthenticateXfccConfig{})
 	identLast, _ := MtlsAuthenticateXfcc(MtlsAuthenticateXfccConfig{SelectElement: "last"})
 	venum.Explore(t, venum.Cfg{Name: "xfcc-noise", Shardable: true}, func(x *venum.X) {
